@@ -370,4 +370,37 @@ theorem bridge_find_sym_op_general_bin (y : C03.Sym) (s seg view ax : Int) :
   all_goals simp only [apply_ite soOf, soOf_0, soOf_1, soOf_2, soOf_3, soOf_4, soOf_5, soOf_6, soOf_7, soOf_8, soOf_9, soOf_10, soOf_11, soOf_12, soOf_13, soOf_14, soOf_15, soOf_16]
   all_goals first | rfl | ((repeat' split) <;> first | rfl | omega | (exfalso; omega))
 
+
+/-! ## C03: `ProjMatrixByBin::cache_key`
+
+The 64-bit packing translated from the source (every `std::uint64_t` operation reduced modulo 2^64, the three field widths read
+from the in-class initialisers of `tang_pos_bits`, `axial_pos_bits`, `timing_pos_bits`) equals the model's `cacheKey` whenever the
+three coordinates fit their fields — the condition `ProjMatrixByBin::set_up` guards (`C03.keyFits`). -/
+
+theorem u64OfInt_natAbs (x : Int) (h : x.natAbs < 18446744073709551616) : u64OfInt (iabs x) = x.natAbs := by
+  unfold u64OfInt iabs
+  split <;> omega
+
+theorem u64OfInt_sign (x : Int) : u64OfInt (if (decide (x ≥ 0)) then 0 else 1) = C03.signBit x := by
+  unfold u64OfInt C03.signBit
+  by_cases h : x ≥ 0 <;> simp [h]
+
+theorem u64shl_of_lt (a s : Nat) (h : a * 2 ^ s < 18446744073709551616) : u64shl a s = a <<< s := by
+  unfold u64shl
+  rw [Nat.shiftLeft_eq]
+  exact Nat.mod_eq_of_lt h
+
+theorem bridge_cache_key (s v ax tang tof : Int) (hax : ax.natAbs < 2 ^ 28) (htg : tang.natAbs < 2 ^ 12) (htf : tof.natAbs < 2 ^ 20) :
+    cache_key ax tang tof = C03.cacheKey ⟨s, v, ax, tang, tof⟩ := by
+  have e1 : u64add (u64add (u64add 20 12) 28) (u64OfInt 2) = 62 := by decide
+  have e2 : u64add (u64add 20 12) (u64OfInt 2) = 34 := by decide
+  have e3 : u64add (u64add 20 12) (u64OfInt 1) = 33 := by decide
+  have e4 : u64add 20 (u64OfInt 1) = 21 := by decide
+  have sb : ∀ x : Int, C03.signBit x ≤ 1 := by intro x; unfold C03.signBit; split <;> omega
+  unfold cache_key C03.cacheKey
+  simp only [Id.run, pure_id, e1, e2, e3, e4, u64OfInt_sign, C03.timingPosBits, C03.tangPosBits, C03.axialPosBits]
+  rw [u64OfInt_natAbs ax (by omega), u64OfInt_natAbs tang (by omega), u64OfInt_natAbs tof (by omega)]
+  rw [u64shl_of_lt _ 62 (by have := sb ax; omega), u64shl_of_lt _ 34 (by omega), u64shl_of_lt _ 33 (by have := sb tang; omega),
+      u64shl_of_lt _ 21 (by omega), u64shl_of_lt _ 20 (by have := sb tof; omega)]
+
 end StirVerif.Gen
